@@ -202,8 +202,26 @@ def run(ctx):
                             break
                 if tx is None:
                     continue
+                # the bound on a transaction's encoded size, at its edge: for one submission in six the configured bound is set to
+                # the very size of the transaction (still admissible) or to one byte less (too big: refused)
+                size_limit = None
+                if step % 6 == 1 and kind in ("valid", "conflicting", "other_fork"):
+                    exact = (step % 12 == 1)
+                    size_limit = len(tx.serialize()) - (0 if exact else 1)
+                    if not exact:
+                        kind = "malformed:one_byte_over_the_size_bound"
+                    from .c19 import patch_everywhere
+                    saved_limit = patch_everywhere("MAX_BLOCK_SIZE", size_limit)
+                    ops.append("p maxBlockSize %d" % size_limit)
+                    impl.append("ok")
+                    res.count("size_bound_at_the_transaction:" + ("exact" if exact else "one_less"))
                 before = list(cm.transaction_pool)
-                r_ = rn.deliver_tx(1, tx)
+                try:
+                    r_ = rn.deliver_tx(1, tx)
+                finally:
+                    if size_limit is not None:
+                        for m_, v_ in saved_limit:
+                            m_.MAX_BLOCK_SIZE = v_
                 if r_ == "exc":
                     res.count("exception:" + type(rn.last_exception).__name__)
                     res.notes.append("%s: %r" % (kind, rn.last_exception))
@@ -212,6 +230,9 @@ def run(ctx):
                 sig_mark = len(keys.oracle)
                 ops.append("node tx 1 " + hx(tx.serialize()))
                 impl.append(r_)
+                if size_limit is not None:
+                    ops.append("p maxBlockSize 200000")
+                    impl.append("ok")
                 after = list(cm.transaction_pool)
                 admitted = len(after) == len(before) + 1
                 res.count("submit:" + kind.split(":")[0])
